@@ -182,3 +182,12 @@ impl OptimalTableauWithSteps {
         self.steps.clone()
     }
 }
+
+/// Read-only accessors for the verification harness (compiled only with `--cfg rooc_verif`).
+#[cfg(rooc_verif)]
+impl SimplexStep {
+    /// The tableau before the pivot, the entering column, the leaving row and the ratio.
+    pub fn verif_parts(&self) -> (&Tableau, usize, usize, f64) {
+        (&self.tableau, self.entering, self.leaving, self.ratio)
+    }
+}
